@@ -484,8 +484,10 @@ def _oracle(case, items):
             if zk is not None:
                 # elimination meets a zero pivot at step zk: must refuse, with a zero-pivot message
                 if c.is_panic(): return "solve panicked without a recognisable message"
+                if items[-1][0] != 'P': return "zero pivot at step %d (n=%d) but solve returned a value: %r" % (zk, n, items[:6])
                 code = c.int()
-                if not c.is_panic(): return "zero pivot at step %d (n=%d) but solve returned a value" % (zk, n)
+                if items[-1][1] != 'guard':
+                    return "zero pivot at step %d (n=%d): solve died with a %s panic instead of its zero-pivot refusal" % (zk, n, items[-1][1])
                 if code not in (1, 2): return "solve refused, but the message does not mention a zero pivot / zero diagonal (code %d)" % code
                 if (code == 1) != (zk == 0): return "zero pivot at step %d but the message is the %s one" % (zk, "leading-diagonal" if code == 1 else "later-pivot")
                 return None
